@@ -850,6 +850,18 @@ func genomeCase(c *codecCase, tb table, res *result) {
 /* ---------------------------------------------------------------- experiments */
 
 func mkTime(exec int) time.Time {
+	// in odd trials: a generation that was never stamped (the zero time.Time of records assembled by the caller) and stamps
+	// far from the present - a time is a value like any other field of a generation
+	if (exec/1000)%2 == 1 {
+		switch exec % 100 {
+		case 10:
+			return time.Time{}
+		case 20:
+			return time.Date(1492, 10, 12, 7, 30, 15, 123456789, time.UTC)
+		case 30:
+			return time.Date(2500, 1, 2, 3, 4, 5, 6, time.UTC)
+		}
+	}
 	t := time.Unix(1700000000+int64(exec)*3600, int64(exec)*1000003%1000000000)
 	if exec%2 == 0 {
 		return t.UTC()
